@@ -58,7 +58,8 @@ def cov_param(ex, path, name):
 
 
 def tref_time_param(ex, path, name):
-    return A.time_obj(z3.Real("t_ref_in"))
+    # a reference epoch given in ANY time scale: its TCB value differs from its own MJD number by a scale-dependent offset
+    return A.time_obj(z3.Real("t_ref_in"), tcb_offset=z3.Real("t_ref_tcb_minus_own_scale"))
 
 
 @model("finite_", doc="spec: the ghost finiteness predicate of a value (what np.isfinite tests)")
@@ -116,7 +117,7 @@ NOCLEAN = {
 }
 TREF_DEFAULT = {"t_ref-defaults-to-earliest": "implies(m() >= 1, all(self._t_ref_bmjd <= self._t_bmjd[r] for r in range(m())) and "
                                               "any(self._t_ref_bmjd == self._t_bmjd[r] for r in range(m())))"}
-TREF_GIVEN = {"t_ref-is-the-given-epoch": "self._t_ref_bmjd == t_ref.mjd and self.t_ref is t_ref"}
+TREF_GIVEN = {"t_ref-is-the-given-epoch": "self._t_ref_bmjd == t_ref.tcb.mjd and self.t_ref is t_ref"}
 TREF_FALSE = {"t_ref-disabled": "self.t_ref is None and self._t_ref_bmjd == 0"}
 
 
